@@ -27,6 +27,7 @@ import JanetModel.Lib.MiscCProofs
 import JanetModel.Lib.Boot6Proofs
 import JanetModel.Lib.Boot7Proofs
 import JanetModel.Lib.Boot8Proofs
+import JanetModel.Lib.MiscC2Proofs
 namespace JanetModel.Props.C17
 open JanetModel.Lib JanetModel.Gen.Lib
 
@@ -540,5 +541,44 @@ example : Boot.interpose 0 [1, 2, 3] = .ok [1, 0, 2, 0, 3] ∧ Boot.interleave2 
     Boot.frequencies [3, 1, 3] = .ok [(3, 2), (1, 1)] ∧ Boot.groupBy (fun (a : Nat) => a % 2) [3, 4, 5] = .ok [(1, [3, 5]), (0, [4])] ∧
     Boot.keep1 (fun (a : Nat) => if a % 2 == 0 then some (a + 1) else none) [1, 2, 4] = .ok [3, 5] := by decide
 example : Sort.SWO (fun (a b : Int) => decide (a < b)) := Boot.int_lt_swo
+
+/-! ### ★★ session 4: the remaining buffer.c / array.c cfuns -/
+
+/-- `buffer/push-word` (`janet_buffer_push_u32`: four masked / shifted stores): contents after the call — also after a call
+    that raised part-way — and the error condition; with `Spec.pushWord` as the all-or-nothing view of the same -/
+theorem mirror_push_word (D : List Nat) (xs : List Int) (b : BufPush.Buf) (hI : BufPush.Inv D b)
+    (h32 : ((BufPush.pushWordSt (BufPush.contents b) xs).2.length : Int) ≤ int32Max) :
+    BufPush.contents (BufPush.pushWord b xs).1 = (BufPush.pushWordSt (BufPush.contents b) xs).2 ∧
+    (BufPush.pushWord b xs).2 = (if (BufPush.pushWordSt (BufPush.contents b) xs).1 then .ok () else .panic) ∧
+    BufPush.Inv D (BufPush.pushWord b xs).1 ∧
+    pushWord (BufPush.contents b) xs = (if (BufPush.pushWordSt (BufPush.contents b) xs).1
+      then some (BufPush.pushWordSt (BufPush.contents b) xs).2 else none) :=
+  let h := BufPush.pushWord_spec D xs b hI h32
+  ⟨h.1, h.2.1, h.2.2, BufPush.pushWordSt_spec _ xs⟩
+
+/-- `buffer/push-uint16|32|64`: unknown byte order or a value outside `[0, 2^(8n))` raises; otherwise the `n` bytes are
+    appended in the requested order (`reverse_u32` / `reverse_u64` as the explicit swaps of the C; little-endian target) -/
+theorem mirror_push_uint (D : List Nat) (b : BufPush.Buf) (nbytes : Nat) (hn : nbytes = 2 ∨ nbytes = 4 ∨ nbytes = 8)
+    (order : Bytes) (data : Int) (hI : BufPush.Inv D b) (h32 : (b.count : Int) + (nbytes : Int) ≤ int32Max) :
+    (BufPush.shouldReverse order = .panic → BufPush.pushUintC b nbytes order data = .panic) ∧
+    (∀ be, BufPush.shouldReverse order = .ok be →
+      (pushUint (BufPush.contents b) nbytes be data = none → BufPush.pushUintC b nbytes order data = .panic) ∧
+      (∀ r, pushUint (BufPush.contents b) nbytes be data = some r →
+        ∃ b', BufPush.pushUintC b nbytes order data = .ok b' ∧ BufPush.contents b' = r ∧ BufPush.Inv D b')) :=
+  BufPush.pushUintC_spec D b nbytes hn order data hI h32
+
+/-- `buffer/new-filled`, `array/new-filled`, `array/push` (raises exactly when the new count would reach INT32_MAX; neither
+    `INT32_MAX - argc + 1` nor `count - 1 + argc` overflows), `array/pop`, `array/peek` -/
+theorem mirror_new_filled_push_pop {α : Type} [Inhabited α] (count byte : Int) (x : α) (a xs : List α) (ha : Len32 a)
+    (hx : (xs.length : Int) + 1 ≤ int32Max) :
+    BufPush.newFilledC count byte = .ok (newFilled count byte) ∧
+    ArrC.newFilled count x = (if count < 0 then .panic else .ok (List.replicate count.toNat x)) ∧
+    ArrC.pushC a xs = (if int32Max ≤ (a.length : Int) + (xs.length : Int) then .panic else .ok (a ++ xs)) ∧
+    ArrC.pop a = .ok (a.getLast?, a.dropLast) ∧ ArrC.peek a = .ok a.getLast? :=
+  ⟨BufPush.newFilledC_eq_spec count byte, ArrC.newFilled_eq_spec count x, ArrC.pushC_eq_spec a xs ha hx,
+   (ArrC.pop_peek_eq_spec a ha).1, (ArrC.pop_peek_eq_spec a ha).2⟩
+
+example : BufPush.contents (BufPush.pushWord { data := #[7], count := 1 } [258, -1, 3]).1 = [7, 2, 1, 0, 0] ∧
+    BufPush.reverseU32 #[1, 2, 3, 4] = .ok #[4, 3, 2, 1] ∧ ArrC.pushC [1] [2, 3] = .ok [1, 2, 3] := by decide
 
 end JanetModel.Props.C17
